@@ -214,6 +214,7 @@ def _work_server(part, nparts, payload):
                 continue
             got = run_server([name], [segments(data, cs)])
             st.executions += 1
+            st.transitions += len(segments(data, cs))
             st.interesting((name, cs))
             st.outcome((name, got[0], got[1], got[2]))
             if cs[0] == 'cuts' and len(cs[1]) == 2:
